@@ -8,7 +8,7 @@ from lib.coqterm import cN, cbool, cbytes, clist, copt
 
 ID = "C08"
 QUICK_N = 1000
-THOROUGH_N = 10000
+THOROUGH_N = 8000
 SHARD = 84
 COQ_PRELUDE = "From MV Require Import Model.HttpRoutingBase Gen.ConnSpec Model.HttpRouting.\n"
 TRANSLATORS = ["conn_spec"]
